@@ -26,6 +26,14 @@ def mcjob(module, cfg=None, workers=8, timeout=900, xmx='8g', witness=False):
     return dict(module=module, cfg=cfg or module, workers=workers, timeout=timeout, xmx=xmx, witness=witness)
 
 
+def obs_jobs(tier, seed):
+    """C17 quantifies over views and owned matrices: the observer family on owners and with every operand a window"""
+    q = tier == 'quick'
+    return simple_jobs('obs', 1600)(tier, seed) + [
+        TraceJob(SMALL, 'obs', shards=4 if q else 8, args=['--cases', 800 if q else 6000, '--extra', 'views', '--seed', seed + 5], label='obs-views@' + SMALL, timeout=3000),
+        TraceJob(NOSSE, 'obs', shards=2 if q else 4, args=['--cases', 300 if q else 3000, '--extra', 'mixviews', '--seed', seed + 6], label='obs-mixviews@' + NOSSE, timeout=3000)]
+
+
 def with_binding(jobsf, family, extra, qcases, tcases):
     """adds the model-binding job: the family in the 'tiny' cache configuration (recursions reachable on matrices small enough
     for TLC to evaluate the implementation-shaped model on them); only drift_* is read off that job"""
@@ -494,7 +502,7 @@ PROPS = {
     'C07': alg(simple_jobs('kernel', 320), mc=lambda tier: gf2_mc(tier) + [mcjob('MC_Solve', workers=12)]),
     'C08': alg(simple_jobs('move', 1600), mc=lambda tier: words_mc('MC_MzdWords_c08_w3')(tier) + [mcjob('MC_Butterfly', 'MC_Butterfly_w%d' % w, workers=4) for w in (2, 4, 8, 16)]),
     'C13': alg(simple_jobs('rowops', 1200), mc=lambda tier: words_mc('MC_MzdWords_c13_w3')(tier) + words2_mc(tier, ('cswap',))),
-    'C17': alg(simple_jobs('obs', 1600), mc=words_mc('MC_MzdWords_c17_w2')),
+    'C17': alg(obs_jobs, mc=words_mc('MC_MzdWords_c17_w2')),
     'C01': dict(level='model_checking', reasons=ALG_REASONS, jobs=c01_jobs,
                 mc=lambda tier: gf2_mc(tier) + [mcjob('MC_Strassen', workers=12), mcjob('MC_Strassen', 'MC_Strassen_wit_f01', workers=4, witness=True),
                                                 mcjob('MC_M4RM', 'MC_M4RM_quick' if tier == 'quick' else 'MC_M4RM', workers=12)],
